@@ -227,6 +227,7 @@ def run(ctx):
         ]
     ctx.exhaustive = False
     first_cmp = None
+    seen_cmp = set()
     for name, mode, nc, length, kw, floor in runs:
         # (TLC's -coverage overflows the Java stack on the instantiated Compare module; which actions were
         # taken is read off the emitted terminal states instead: an error record went through Misaligned,
@@ -246,9 +247,11 @@ def run(ctx):
             o = ctx.coverage_actions.get(a, [0, 0])
             ctx.coverage_actions[a] = [o[0] + k, o[1] + k]
         if mode == 'compare':
-            need = {'none', 'common', 'between_eq'} | (set() if kw['shapes'] == 'Sh11' else {'within'})
+            # ('none' is rare where many masks are enumerated and emission is sampled: required over all runs)
+            need = {'common', 'between_eq'} | (set() if kw['shapes'] == 'Sh11' else {'within'})
             if not need <= set(classes):
                 raise MachineryError(f'{name}: vacuous - classes replayed: {sorted(classes)}')
+            seen_cmp |= set(classes)
             if first_cmp is None:
                 first_cmp = (r, nc)
         for rec in r.iter_emitted():
@@ -256,6 +259,8 @@ def run(ctx):
                                                                         'mb', 'err', 'wk', 'w', 'mean', 'conn', 'f')}},
                        cap=8)
             break
+    if not {'none', 'common', 'between_eq', 'between_ne', 'within'} <= seen_cmp:
+        raise MachineryError(f'vacuous - mask classes replayed: {sorted(seen_cmp)}')
     selftest_replay(ctx, *first_cmp)
     # implementation -> specification
     nsess = (60, 40) if not thorough else (600, 400)
